@@ -241,6 +241,7 @@ static std::vector<Point> points(bool thorough)
         p.push_back({"maze6", "default", "R2", b});
         p.push_back({"maze6", "snap", "R2", b});
         p.push_back({"wallgap4", "default", "SE2", b});
+        p.push_back({"wallgap4", "default", "R4pin", b});  // random linear default projection with a zero-extent dimension
         if (thorough)
             p.push_back({"corridor6", "snap", "SE2", b});
     }
@@ -422,7 +423,7 @@ int main(int argc, char **argv)
             runPlanner(job, a, rep);
         rep.rule = "RNG API: every history of depth <= 5 (thorough 6) over {new RNG, draw uniform01 / gaussian01 / uniformNormalVector / quaternion+uniformInt from generator i, setLocalSeed(i)} after "
                    "setSeed(s), each run in two fresh processes and per generator against a solo process that performs only that generator's own operations; reseeded streams against a fresh "
-                   "RNG(localSeed). Planners (real generator, oracle off): planner x {continuous, grid-snapped (ties), SE(2)} problems x seeds x evaluation budgets {20,100,300}, each in 5 separate "
+                   "RNG(localSeed). Planners (real generator, oracle off): planner x {continuous, grid-snapped (ties), SE(2), R^4 with a zero-extent dimension} problems x seeds x evaluation budgets {20,100,300}, each in 5 separate "
                    "processes that differ in ASLR, heap pre-offset and the byte pattern of fresh heap memory; hash(status, flags, solution paths) must agree; non-trivial = interleaved "
                    "multi-generator histories / every planner point";
         rep.assumptions = {"the seed quantifier is a finite set: RNG API {0, 1, 2, 12345, 2^32-1}, planners {1,2,3[,12345]}: bounded enumeration",
